@@ -37,39 +37,46 @@ namespace {
         static int live, constructed, destroyed, bad_access;
         int64_t v;
         uint32_t magic;
+        // the ledger is harness bookkeeping: every member is an atomic section
         explicit Tok(int64_t x = 0)
-          : v(x)
-          , magic(0xA11CE)
         {
+            AtomicSection a;
+            v = x;
+            magic = 0xA11CE;
             live++;
             constructed++;
         }
         Tok(Tok const& o)
-          : v(o.get())
-          , magic(0xA11CE)
         {
+            AtomicSection a;
+            v = o.get();
+            magic = 0xA11CE;
             live++;
             constructed++;
         }
         Tok(Tok&& o) noexcept
-          : v(o.get())
-          , magic(0xA11CE)
         {
+            AtomicSection a;
+            v = o.get();
+            magic = 0xA11CE;
             live++;
             constructed++;
         }
         Tok& operator=(Tok const& o)
         {
+            AtomicSection a;
             v = o.get();
             return *this;
         }
         Tok& operator=(Tok&& o) noexcept
         {
+            AtomicSection a;
             v = o.get();
             return *this;
         }
         ~Tok()
         {
+            AtomicSection a;
             if (magic != 0xA11CE) bad_access++;
             magic = 0xDEAD;
             v = -999999;
@@ -78,6 +85,7 @@ namespace {
         }
         int64_t get() const
         {
+            AtomicSection a;
             if (magic != 0xA11CE) bad_access++;
             return v;
         }
@@ -149,8 +157,11 @@ namespace {
             ~Op() { canary = 0xDEAD; }
             void complete() noexcept
             {
-                VH_CHECK(canary == 0xC0FFEE, "C03.harness", "leaf operation state used after destruction");
-                leaf->completions++;
+                {
+                    AtomicSection a;
+                    VH_CHECK(canary == 0xC0FFEE, "C03.harness", "leaf operation state used after destruction");
+                    leaf->completions++;
+                }
                 switch (leaf->channel)
                 {
                 case CH_VALUE:
@@ -169,11 +180,14 @@ namespace {
             }
             void start() & noexcept
             {
-                leaf->starts++;
-                if (leaf->timing == T_INLINE)
-                    complete();
-                else
-                    leaf->pending.push_back([this] { complete(); });
+                bool inl;
+                {
+                    AtomicSection a;
+                    leaf->starts++;
+                    inl = leaf->timing == T_INLINE;
+                    if (!inl) leaf->pending.push_back([this] { complete(); });
+                }
+                if (inl) complete();
             }
         };
         template <typename R>
@@ -236,6 +250,7 @@ namespace {
         template <typename... Ts>
         void set_value(Ts&&... ts) && noexcept
         {
+            AtomicSection a;
             check_alive();
             out->nvalue++;
             int64_t sum = 0;
@@ -245,6 +260,7 @@ namespace {
         }
         void set_error(std::exception_ptr ep) && noexcept
         {
+            AtomicSection a;
             check_alive();
             out->nerror++;
             out->err_id = err_id_of(ep);
@@ -252,6 +268,7 @@ namespace {
         }
         void set_stopped() && noexcept
         {
+            AtomicSection a;
             check_alive();
             out->nstopped++;
             VH_CHECK(out->signals() == 1, "C03.signalled_twice", "receiver got %d completion signals", out->signals());
@@ -277,7 +294,12 @@ namespace {
     // user callables
     Tok f_then(int k, Tok t)
     {
-        if (g_throw[k]) throw TestError(100 + k);
+        bool th;
+        {
+            AtomicSection a;
+            th = g_throw[k];
+        }
+        if (th) throw TestError(100 + k);
         return Tok(t.get() * 3 + k);
     }
     int64_t m_then(int k, int64_t x) { return x * 3 + k; }
@@ -353,24 +375,30 @@ namespace {
         c->what = what;
         auto sp = std::make_shared<std::optional<std::decay_t<S>>>(std::forward<S>(sender));
         c->go = [sp](Consumer& self) {
-            self.started = true;
+            {
+                AtomicSection a;
+                self.started = true;
+            }
             if (self.how == 1)
             {
                 try
                 {
                     auto r = tt::sync_wait(std::move(**sp));
                     sp->reset();
+                    AtomicSection a;
                     self.out.nvalue++;
                     self.out.value = value_of(r);
                 }
                 catch (TestError const& e)
                 {
+                    AtomicSection a;
                     self.out.nerror++;
                     self.out.err_id = e.id;
                 }
                 catch (...)
                 {
                     // sync_wait reports stopped as an exception too
+                    AtomicSection a;
                     self.out.nstopped++;
                 }
                 self.finished = true;
@@ -379,7 +407,10 @@ namespace {
             {
                 auto op = make_op(std::move(**sp), Rcv{&self.out});
                 sp->reset();
-                self.op = op;
+                {
+                    AtomicSection a;
+                    self.op = op;
+                }
                 op->start();
             }
         };
@@ -721,25 +752,37 @@ namespace {
                 bool any = false;
                 for (int i = 0; i < 4; i++)
                 {
-                    while (!g_leaf[i].pending.empty())
+                    for (;;)
                     {
-                        auto f = std::move(g_leaf[i].pending.back());
-                        g_leaf[i].pending.pop_back();
+                        std::function<void()> f;
+                        {
+                            AtomicSection a;
+                            if (g_leaf[i].pending.empty()) break;
+                            f = std::move(g_leaf[i].pending.back());
+                            g_leaf[i].pending.pop_back();
+                        }
                         any = true;
                         f();
                     }
                 }
-                bool done = all_started;
-                if (done)
-                    for (auto& c : consumers)
-                        if (c->out.signals() == 0) done = false;
+                bool done;
+                {
+                    AtomicSection a;
+                    done = all_started;
+                    if (done)
+                        for (auto& c : consumers)
+                            if (c->out.signals() == 0) done = false;
+                }
                 if (done && !any) break;
                 if (!any) std::this_thread::yield();
             }
         });
-        sim_quiesce(3000000);
         for (auto& t : th) t.join();
-        all_started = true;
+        {
+            AtomicSection a;
+            all_started = true;
+        }
+        sim_quiesce(3000000);
         completer.join();
         if (with_runtime) pika::wait();
         // every consumer got exactly its denoted signal
